@@ -1,8 +1,8 @@
 use poulpy_hal::{
     api::{
         ScratchAvailable, ScratchTakeBasic, VecZnxAutomorphismAssign, VecZnxAutomorphismAssignTmpBytes, VecZnxBigAddSmallAssign,
-        VecZnxBigAutomorphismAssign, VecZnxBigAutomorphismAssignTmpBytes, VecZnxBigNormalize, VecZnxBigSubSmallAssign,
-        VecZnxBigSubSmallNegateAssign, VecZnxNormalize,
+        VecZnxBigAutomorphismAssign, VecZnxBigAutomorphismAssignTmpBytes, VecZnxBigNormalize, VecZnxBigNormalizeTmpBytes,
+        VecZnxBigSubSmallAssign, VecZnxBigSubSmallNegateAssign, VecZnxNormalize,
     },
     layouts::{Backend, Module, Scratch, VecZnxBig, ZnxZero},
 };
@@ -26,6 +26,7 @@ pub(crate) trait GLWEAutomorphismDefault<BE: Backend>:
     + VecZnxBigSubSmallNegateAssign<BE>
     + VecZnxBigAddSmallAssign<BE>
     + VecZnxBigNormalize<BE>
+    + VecZnxBigNormalizeTmpBytes
     + GLWENormalize<BE>
 where
     Scratch<BE>: ScratchTakeCore<BE>,
@@ -44,8 +45,24 @@ where
         let lvl_1: usize = self
             .vec_znx_automorphism_assign_tmp_bytes()
             .max(self.vec_znx_big_automorphism_assign_tmp_bytes());
+        // the add / sub forms keep the copy converted to the key radix alive while they normalise the result
+        let lvl_2: usize = if a_infos.base2k() != key_infos.base2k() {
+            let a_conv_infos: GLWELayout = GLWELayout {
+                n: a_infos.n(),
+                base2k: key_infos.base2k(),
+                k: (a_infos.size() as u32 * a_infos.base2k().as_u32()).into(),
+                rank: a_infos.rank(),
+            };
+            self.bytes_of_vec_znx_dft((res_infos.rank() + 1).into(), key_infos.size())
+                + GLWE::<Vec<u8>>::bytes_of_from_infos(&a_conv_infos).next_multiple_of(64)
+                + self
+                    .vec_znx_big_normalize_tmp_bytes()
+                    .max(self.vec_znx_big_automorphism_assign_tmp_bytes())
+        } else {
+            0
+        };
 
-        lvl_0.max(lvl_1)
+        lvl_0.max(lvl_1).max(lvl_2)
     }
 
     fn glwe_automorphism_default<R, A, K>(&self, res: &mut R, a: &A, key: &K, scratch: &mut Scratch<BE>)
@@ -381,6 +398,7 @@ where
         + VecZnxBigSubSmallNegateAssign<BE>
         + VecZnxBigAddSmallAssign<BE>
         + VecZnxBigNormalize<BE>
+        + VecZnxBigNormalizeTmpBytes
         + GLWENormalize<BE>,
     Scratch<BE>: ScratchTakeCore<BE>,
 {
